@@ -64,35 +64,39 @@ Section LazyProofs.
       rewrite ?lookup_bind_ne, ?lookup_unbind_ne by assumption; reflexivity.
   Qed.
 
-  (* a call that is not next() / a loader step on slot m *)
-  Definition not_step_on (c : call) (m : nat) : Prop :=
-    match c with KNext n _ | KLoaderNext n _ => n <> m | _ => True end.
+  (* next() / a loader step on slot m only rebinds m when m holds a scanner / a loader *)
+  Definition stays (st : state) (c : call) (m : nat) : Prop :=
+    match c with
+    | KNext n _ => n = m -> forall h, lookup st m <> Some (OScanner h)
+    | KLoaderNext n _ => n = m -> forall a i k, lookup st m <> Some (OLoader _ _ _ _ _ a i k)
+    | _ => True
+    end.
 
   Definition untouched (st : state) (c : call) (m : nat) : Prop :=
     match touches st c with Some (n, _) => n <> m | None => True end.
 
   (* frame: a call leaves alone every slot that it does not rebind, reconfigure or step *)
   Lemma frame (st : state) c m :
-    rebinds c <> Some m -> untouched st c m -> not_step_on c m ->
+    rebinds c <> Some m -> untouched st c m -> stays st c m ->
     lookup (snd (run_call K st c)) m = lookup st m.
   Proof.
     intros Hr Ht Hs. unfold untouched in Ht.
     assert (Hd : forall d, rebinds c = Some d -> d <> m) by (intros d E; congruence).
-    destruct c; cbn [PyGlueLazy.rebinds] in Hd; cbn [PyGlueLazy.touches] in Ht; cbn [not_step_on] in Hs;
+    destruct c; cbn [PyGlueLazy.rebinds] in Hd; cbn [PyGlueLazy.touches] in Ht; cbn [stays] in Hs;
       cbn [run_call].
     all: try (rewrite store_ne by (apply Hd; reflexivity); reflexivity).
     all: try (destruct (lookup st self) as [[]|]; cbn [snd];
               rewrite ?store_ne, ?lookup_unbind_ne by (try apply Hd; auto); reflexivity).
     - (* calculate *)
       destruct (lookup st self) as [[]|]; cbn [snd]; rewrite ?lookup_unbind_ne by (apply Hd; reflexivity); try reflexivity.
-      destruct sequence as [ |b0|z0|bits0|cps0|bs0|l0|l0|kv0| |nq]; try (rewrite store_ne by (apply Hd; reflexivity); reflexivity).
+      destruct sequence as [ |b0|z0|bits0|cps0|bs0|l0|l0|kv0| |nq|g0]; try (rewrite store_ne by (apply Hd; reflexivity); reflexivity).
       destruct (lookup st nq) as [[]|] eqn:E; cbn [snd];
         rewrite ?store_ne, ?lookup_unbind_ne by (apply Hd; reflexivity); try reflexivity.
       destruct (glue_calculate K a s a0 q) as [o q']. rewrite store_ne by (apply Hd; reflexivity).
       rewrite lookup_bind_ne, lookup_unbind_ne by exact Ht. reflexivity.
     - (* scan *)
-      destruct pssm as [ |b1|z1|bits1|cps1|bs1|l1|l1|kv1| |np];
-        destruct sequence as [ |b0|z0|bits0|cps0|bs0|l0|l0|kv0| |nq];
+      destruct pssm as [ |b1|z1|bits1|cps1|bs1|l1|l1|kv1| |np|g1];
+        destruct sequence as [ |b0|z0|bits0|cps0|bs0|l0|l0|kv0| |nq|g0];
         try (rewrite store_ne by (apply Hd; reflexivity); reflexivity);
         try (destruct (lookup st np) as [o|]; cbn [snd];
              rewrite ?store_ne, ?lookup_unbind_ne by (apply Hd; reflexivity); reflexivity);
@@ -104,9 +108,12 @@ Section LazyProofs.
       destruct (glue_scan K a s a0 q t b) as [o q']. rewrite store_ne by (apply Hd; reflexivity).
       rewrite lookup_bind_ne, lookup_unbind_ne by exact Ht. reflexivity.
     - (* next *)
-      destruct (lookup st self) as [[]|]; try reflexivity.
-      destruct (glue_next _ _ _ _ _ hits k) as [r rest]. cbn [snd].
-      rewrite lookup_bind_ne, lookup_unbind_ne by exact Hs. reflexivity.
+      destruct (Nat.eq_dec self m) as [E|E].
+      + specialize (Hs E). subst self. destruct (lookup st m) as [[]|] eqn:El; cbn [snd]; rewrite ?El; try reflexivity.
+        exfalso. eapply Hs. reflexivity.
+      + destruct (lookup st self) as [[]|]; try reflexivity.
+        destruct (glue_next _ _ _ _ _ hits k) as [r rest]. cbn [snd].
+        rewrite lookup_bind_ne, lookup_unbind_ne by exact E. reflexivity.
     - (* get motif *)
       destruct (lookup st self) as [[]|]; cbn [snd]; rewrite ?lookup_unbind_ne by (apply Hd; reflexivity); try reflexivity.
       destruct (motif_part _ _ _ _ _ m0 which); cbn [snd];
@@ -121,14 +128,340 @@ Section LazyProofs.
         rewrite ?store_ne, ?lookup_unbind_ne by (apply Hd; reflexivity); reflexivity.
     - (* == *)
       destruct (lookup st self) as [o|]; try reflexivity.
-      destruct other as [ |b0|z0|bits0|cps0|bs0|l0|l0|kv0| |nq]; try (destruct (glue_eq K o None); reflexivity).
+      destruct other as [ |b0|z0|bits0|cps0|bs0|l0|l0|kv0| |nq|g0]; try (destruct (glue_eq K o None); reflexivity).
       destruct (lookup st nq) as [o0|]; try reflexivity. destruct (glue_eq K o (Some o0)); reflexivity.
     - (* loader new *)
       destruct (lookup st file) as [[]|]; cbn [snd]; rewrite ?store_ne, ?lookup_unbind_ne by (apply Hd; reflexivity); reflexivity.
     - (* loader next *)
-      destruct (lookup st self) as [[]|]; try reflexivity.
-      destruct (lazy_take K a id calls k) as [items calls']. cbn [snd].
-      rewrite lookup_bind_ne, lookup_unbind_ne by exact Hs. reflexivity.
+      destruct (Nat.eq_dec self m) as [E|E].
+      + specialize (Hs E). subst self. destruct (lookup st m) as [[]|] eqn:El; cbn [snd]; rewrite ?El; try reflexivity.
+        exfalso. eapply Hs. reflexivity.
+      + destruct (lookup st self) as [[]|]; try reflexivity.
+        destruct (lazy_take K a id calls k) as [items calls']. cbn [snd].
+        rewrite lookup_bind_ne, lookup_unbind_ne by exact E. reflexivity.
+  Qed.
+
+  (* what [touches] reports: the slot holds a sequence before and after the call; the new value is
+     the old one or comes from it by one configure() *)
+  Lemma touches_spec (st : state) c n q' :
+    touches st c = Some (n, q') ->
+    exists a q, lookup st n = Some (OSeq a q) /\
+      (q' = q \/ exists s', c_configure K q s' = COk q') /\
+      (rebinds c <> Some n -> lookup (snd (run_call K st c)) n = Some (OSeq a q')).
+  Proof.
+    intros H. destruct c; cbn [PyGlueLazy.touches] in H; try discriminate.
+    - (* calculate *)
+      destruct sequence as [ |b0|z0|bits0|cps0|bs0|l0|l0|kv0| |nq|g0]; try discriminate.
+      destruct (lookup st self) as [[]|] eqn:E1; try discriminate.
+      destruct (lookup st nq) as [[]|] eqn:E2; try discriminate.
+      inversion H; subst n q'; clear H. exists a0, q. split; [exact E2|]. split.
+      + unfold glue_calculate. destruct (sm_empty _); [left; reflexivity|].
+        destruct (abc_eqb a a0); [|left; reflexivity].
+        destruct (c_configure K q s) eqn:Ec; cbn [snd]; [right; exists s; exact Ec | left; reflexivity ..].
+      + intros Hr. cbn [run_call]. rewrite E1, E2.
+        destruct (glue_calculate K a s a0 q) as [o q1]. cbn [snd].
+        rewrite store_ne by (cbn [PyGlueLazy.rebinds] in Hr; congruence). apply lookup_bind_eq.
+    - (* scan *)
+      destruct pssm as [ |b1|z1|bits1|cps1|bs1|l1|l1|kv1| |np|g1]; try discriminate.
+      destruct sequence as [ |b0|z0|bits0|cps0|bs0|l0|l0|kv0| |nq|g0]; try discriminate.
+      destruct (lookup st np) as [[]|] eqn:E1; try discriminate.
+      destruct (lookup st nq) as [[]|] eqn:E2; try discriminate.
+      destruct (glue_scan_args thr bs) as [[t b]|e|] eqn:E3; try discriminate.
+      inversion H; subst n q'; clear H. exists a0, q. split; [exact E2|]. split.
+      + unfold glue_scan. destruct (negb _); [left; reflexivity|].
+        destruct a, a0; try (left; reflexivity).
+        destruct (sm_empty _); [left; reflexivity|].
+        destruct (c_configure K q s) eqn:Ec; cbn [snd]; [right; exists s; exact Ec | left; reflexivity ..].
+      + intros Hr. cbn [run_call]. rewrite E1, E2, E3.
+        destruct (glue_scan K a s a0 q t b) as [o q1]. cbn [snd].
+        rewrite store_ne by (cbn [PyGlueLazy.rebinds] in Hr; congruence). apply lookup_bind_eq.
+  Qed.
+
+  (* ---------------------------------------------------------------- the invariant *)
+
+  (* a lazy scanner and the eager scanner object of the same name agree: the core scan over the
+     sequence as it is now gives the hits of which the eager object holds the part not handed out;
+     a live link leads to the sequence the scanner sees *)
+  Definition scanner_ok (st : state) (e : lscan) : Prop :=
+    exists all, c_scan K (l_s e) (l_q e) (l_t e) (l_b e) = COk all /\
+      lookup st (l_slot e) = Some (OScanner (skipn (l_taken e) all)) /\
+      (forall n, l_live e = Some n -> exists a, lookup st n = Some (OSeq a (l_q e))).
+
+  Definition linv (st : state) (ls : list lscan) : Prop :=
+    NoDup (map l_slot ls) /\ Forall (scanner_ok st) ls.
+
+  Lemma linv_nil : linv [] [].
+  Proof. split; constructor. Qed.
+
+  Lemma carry_entry (st : state) c e :
+    scanner_ok st e -> (forall k, c <> KNext (l_slot e) k) -> rebinds c <> Some (l_slot e) ->
+    scanner_ok (snd (run_call K st c)) (detach SM SQ (rebinds c) (retarget SM SQ (touches st c) e)).
+  Proof.
+    intros [all [Hscan [Hslot Hlive]]] Hnx Hrb.
+    (* the slot of the scanner is left alone *)
+    assert (Hs' : lookup (snd (run_call K st c)) (l_slot e) = Some (OScanner (skipn (l_taken e) all))).
+    { rewrite frame; [exact Hslot | exact Hrb | |].
+      - unfold untouched. destruct (touches st c) as [[n q']|] eqn:Et; [|exact I].
+        destruct (touches_spec _ _ _ _ Et) as [a [q [Hn _]]]. intros ->. congruence.
+      - destruct c; cbn [stays]; auto.
+        + intros E. subst self. exfalso. eapply Hnx. reflexivity.
+        + intros E h0 a i. rewrite Hslot. discriminate. }
+    (* a live link other than the reconfigured slot is left alone *)
+    assert (Hl' : forall m a, l_live e = Some m -> rebinds c <> Some m -> untouched st c m ->
+                           lookup st m = Some (OSeq a (l_q e)) ->
+                           lookup (snd (run_call K st c)) m = Some (OSeq a (l_q e))).
+    { intros m a Hm Hr Hu Hq. rewrite frame; auto.
+      destruct c; cbn [stays]; auto; intros _; intros; rewrite Hq; discriminate. }
+    destruct (touches st c) as [[n q']|] eqn:Et; cbn [retarget].
+    - destruct (touches_spec _ _ _ _ Et) as [a [q [Hn [Hq' Hafter]]]].
+      destruct (l_live e) as [m|] eqn:El.
+      + destruct (Nat.eqb n m) eqn:Enm.
+        * apply Nat.eqb_eq in Enm. subst m.
+          destruct (Hlive n eq_refl) as [a' Hq0]. rewrite Hn in Hq0. inversion Hq0; subst a' q; clear Hq0.
+          assert (Hscan' : c_scan K (l_s e) q' (l_t e) (l_b e) = COk all).
+          { destruct Hq' as [->|[s' Hc]]; [exact Hscan|]. eapply Hstable; eauto. }
+          unfold detach. cbn [l_live set_q]. rewrite El.
+          destruct (rebinds c) as [d|] eqn:Er.
+          -- destruct (Nat.eqb d n) eqn:Edn.
+             ++ exists all. cbn. repeat split; auto. intros; discriminate.
+             ++ exists all. cbn. rewrite El. repeat split; auto. intros n9 E0. inversion E0; subst n9.
+                exists a. apply Hafter. apply Nat.eqb_neq in Edn. congruence.
+          -- exists all. cbn. rewrite El. repeat split; auto. intros n9 E0. inversion E0; subst n9.
+             exists a. apply Hafter. discriminate.
+        * apply Nat.eqb_neq in Enm. unfold detach. rewrite El.
+          destruct (Hlive m eq_refl) as [a' Hq0].
+          destruct (rebinds c) as [d|] eqn:Er.
+          -- destruct (Nat.eqb d m) eqn:Edm.
+             ++ exists all. cbn. repeat split; auto. intros; discriminate.
+             ++ exists all. repeat split; auto. intros n9 E0. rewrite El in E0. inversion E0; subst n9.
+                exists a'. apply Hl'; auto.
+                ** apply Nat.eqb_neq in Edm. congruence.
+                ** unfold untouched. rewrite Et. exact Enm.
+          -- exists all. repeat split; auto. intros n9 E0. rewrite El in E0. inversion E0; subst n9.
+             exists a'. apply Hl'; auto; [discriminate|]. unfold untouched. rewrite Et. exact Enm.
+      + unfold detach. rewrite El. destruct (rebinds c); exists all; repeat split; auto;
+          intros n9 E0; rewrite El in E0; discriminate.
+    - destruct (l_live e) as [m|] eqn:El.
+      + unfold detach. rewrite El. destruct (Hlive m eq_refl) as [a' Hq0].
+        destruct (rebinds c) as [d|] eqn:Er.
+        * destruct (Nat.eqb d m) eqn:Edm.
+          -- exists all. cbn. repeat split; auto. intros; discriminate.
+          -- exists all. repeat split; auto. intros n9 E0. rewrite El in E0. inversion E0; subst n9.
+             exists a'. apply Hl'; auto.
+             ++ apply Nat.eqb_neq in Edm. congruence.
+             ++ unfold untouched. rewrite Et. exact I.
+        * exists all. repeat split; auto. intros n9 E0. rewrite El in E0. inversion E0; subst n9.
+          exists a'. apply Hl'; auto; [discriminate|]. unfold untouched. rewrite Et. exact I.
+      + unfold detach. rewrite El. destruct (rebinds c); exists all; repeat split; auto;
+          intros n9 E0; rewrite El in E0; discriminate.
+  Qed.
+
+  Lemma detach_slot rb (e : lscan) : l_slot (detach SM SQ rb e) = l_slot e.
+  Proof. unfold detach. destruct rb, (l_live e); try reflexivity. destruct (Nat.eqb _ _); reflexivity. Qed.
+
+  Lemma retarget_slot tc (e : lscan) : l_slot (retarget SM SQ tc e) = l_slot e.
+  Proof.
+    unfold retarget. destruct tc as [[n q]|], (l_live e); try reflexivity. destruct (Nat.eqb _ _); reflexivity.
+  Qed.
+
+  Lemma NoDup_map_filter {A B} (f : A -> B) (p : A -> bool) l : NoDup (map f l) -> NoDup (map f (filter p l)).
+  Proof.
+    induction l as [|x r IH]; intros H; [constructor|]. cbn [map] in H. inversion H; subst.
+    cbn [filter]. destruct (p x); [|auto]. cbn [map]. constructor; [|auto].
+    intros Hin. apply H2. apply in_map_iff in Hin. destruct Hin as [y [Hy Hf]].
+    apply filter_In in Hf. apply in_map_iff. exists y. tauto.
+  Qed.
+
+  Lemma carry_inv (st : state) c ls :
+    linv st ls -> (forall n k, c <> KNext n k) ->
+    linv (snd (run_call K st c)) (carry st c ls) /\
+    (forall d, rebinds c = Some d -> ~ In d (map l_slot (carry st c ls))).
+  Proof.
+    intros [Hnd Hall] Hnx. unfold PyGlueLazy.carry. split; [split|].
+    - apply NoDup_map_filter. rewrite !map_map.
+      erewrite map_ext; [exact Hnd|]. intros e. cbn. rewrite detach_slot, retarget_slot. reflexivity.
+    - apply Forall_forall. intros e' Hin. apply filter_In in Hin. destruct Hin as [Hin Hal].
+      rewrite map_map in Hin. apply in_map_iff in Hin. destruct Hin as [e [He' Hin]]. subst e'.
+      rewrite Forall_forall in Hall. apply carry_entry; [apply Hall; exact Hin | intros k; apply Hnx |].
+      unfold alive in Hal. rewrite detach_slot, retarget_slot in Hal.
+      destruct (rebinds c) as [d|]; [|discriminate]. intros E. inversion E; subst d.
+      rewrite Nat.eqb_refl in Hal. discriminate.
+    - intros d Hd Hin. apply in_map_iff in Hin. destruct Hin as [e' [Hs Hin]].
+      apply filter_In in Hin. destruct Hin as [_ Hal]. unfold alive in Hal. rewrite Hd in Hal.
+      subst d. rewrite Nat.eqb_refl in Hal. discriminate.
+  Qed.
+
+  (* the scanner object made by a successful scan() / Scanner() call *)
+  Lemma new_scanner_ok (st : state) c e :
+    In e (new_scanner K st c (fst (run_call K st c))) ->
+    scanner_ok (snd (run_call K st c)) e /\ rebinds c = Some (l_slot e).
+  Proof.
+    intros Hin. destruct c; cbn [PyGlueLazy.new_scanner] in Hin; try contradiction.
+    destruct pssm as [ |b1|z1|bits1|cps1|bs1|l1|l1|kv1| |np|g1]; try contradiction.
+    destruct sequence as [ |b0|z0|bits0|cps0|bs0|l0|l0|kv0| |nq|g0]; try contradiction.
+    cbn [PyGlueLazy.touches run_call] in *.
+    destruct (lookup st np) as [[]|] eqn:E1;
+      try (destruct (fst _) as [[[[]| | | | | | | | | | |]| |]|]; contradiction).
+    destruct (lookup st nq) as [[]|] eqn:E2;
+      try (destruct (fst _) as [[[[]| | | | | | | | | | |]| |]|]; contradiction).
+    destruct (glue_scan_args thr bs) as [[t b]|ex|] eqn:E3;
+      try (destruct (fst _) as [[[[]| | | | | | | | | | |]| |]|]; contradiction).
+    destruct (glue_scan K a s a0 q t b) as [o q'] eqn:Eg. cbn [snd] in *.
+    destruct o as [v|ex|]; cbn [PyGlueModel.store fst snd] in *; try contradiction.
+    destruct v; try contradiction. destruct Hin as [<-|[]]. cbn. split; [|reflexivity].
+    exists hits. cbn. repeat split.
+    - unfold glue_scan in Eg. destruct (negb _); [inversion Eg|].
+      destruct a, a0; try (inversion Eg; fail).
+      destruct (sm_empty _); [inversion Eg|].
+      destruct (c_configure K q s) as [q1| |]; try (inversion Eg; fail).
+      destruct (c_scan K s q1 t b) as [h| |] eqn:Es; cbn in Eg; inversion Eg; subst. exact Es.
+    - apply lookup_bind_eq.
+    - intros n Hn. destruct (Nat.eqb dst nq) eqn:Ed; [discriminate|]. inversion Hn; subst n.
+      exists a0. assert (E5 : Nat.eqb nq dst = false) by (apply Nat.eqb_neq; apply Nat.eqb_neq in Ed; congruence).
+      rewrite ?Ed, ?E5. cbn [PyGlueModel.lookup]. rewrite Nat.eqb_refl. reflexivity.
+  Qed.
+
+  Definition is_next (c : call) : bool := match c with KNext _ _ => true | _ => false end.
+
+  Lemma lazy_other (st : state) ls c :
+    is_next c = false ->
+    run_call_lazy K st ls c =
+      (fst (run_call K st c), snd (run_call K st c),
+       new_scanner K st c (fst (run_call K st c)) ++ carry st c ls).
+  Proof.
+    intros H. unfold run_call_lazy. destruct (run_call K st c) as [stp st'].
+    destruct c; try discriminate; reflexivity.
+  Qed.
+
+  Lemma linv_other (st : state) ls c :
+    linv st ls -> is_next c = false ->
+    linv (snd (run_call K st c)) (new_scanner K st c (fst (run_call K st c)) ++ carry st c ls).
+  Proof.
+    intros Hinv Hn.
+    assert (Hnx : forall n k, c <> KNext n k) by (intros n k ->; discriminate).
+    destruct (carry_inv st c ls Hinv Hnx) as [[Hnd Hall] Hfresh].
+    pose proof (new_scanner_ok st c) as Hnew.
+    assert (Hlen : (length (new_scanner K st c (fst (run_call K st c))) <= 1)%nat).
+    { destruct c; cbn [PyGlueLazy.new_scanner length]; try lia.
+      destruct pssm, sequence; cbn [length]; try lia.
+      destruct (fst _) as [[[[]| | | | | | | | | | |]| |]|]; cbn [length]; try lia.
+      destruct (lookup st slot) as [[]|]; cbn [length]; try lia.
+      destruct (touches st _) as [[]|]; cbn [length]; try lia.
+      destruct (glue_scan_args thr bs) as [[]| |]; cbn [length]; lia. }
+    destruct (new_scanner K st c (fst (run_call K st c))) as [|e [|e2 r]]; [split; assumption| |cbn in Hlen; lia].
+    destruct (Hnew e (or_introl eq_refl)) as [He Hr]. cbn [app]. split.
+    - cbn [map]. constructor; [apply Hfresh; exact Hr | exact Hnd].
+    - constructor; assumption.
+  Qed.
+
+  (* ---------------------------------------------------------------- next() *)
+
+  Lemma lfind_some (ls : list lscan) n e : lfind SM SQ ls n = Some e -> In e ls /\ l_slot e = n.
+  Proof.
+    unfold lfind. intros H. apply find_some in H. destruct H as [Hin He]. apply Nat.eqb_eq in He. auto.
+  Qed.
+
+  Lemma lfind_none (ls : list lscan) n : lfind SM SQ ls n = None -> forall e, In e ls -> l_slot e <> n.
+  Proof.
+    unfold lfind. intros H e Hin E. pose proof (find_none _ _ H e Hin) as Hf. cbn in Hf.
+    apply Nat.eqb_neq in Hf. contradiction.
+  Qed.
+
+  Lemma carry_next (st : state) ls n k : carry st (KNext n k) ls = ls.
+  Proof.
+    unfold PyGlueLazy.carry. cbn [PyGlueLazy.rebinds PyGlueLazy.touches].
+    induction ls as [|e r IH]; [reflexivity|]. cbn [map filter alive].
+    unfold retarget at 1. unfold detach at 1. cbn [map filter alive] in IH. rewrite IH. reflexivity.
+  Qed.
+
+  Lemma glue_next_rest (rem : list (Z * Z)) k r rest :
+    glue_next CM WM SM SQ SC rem k = (r, rest) -> rest = skipn (length rem - length rest) rem.
+  Proof.
+    unfold glue_next. destruct k as [n|].
+    - destruct (Nat.leb n (length rem)) eqn:E; intros H; inversion H; subst.
+      + apply Nat.leb_le in E. rewrite skipn_length. f_equal. lia.
+      + cbn [length]. rewrite Nat.sub_0_r, skipn_all. reflexivity.
+    - intros H; inversion H; subst. cbn [length]. rewrite Nat.sub_0_r, skipn_all. reflexivity.
+  Qed.
+
+  Lemma skipn_skipn {A} x y (l : list A) : skipn x (skipn y l) = skipn (y + x) l.
+  Proof.
+    revert l. induction y as [|y IH]; intros l; [reflexivity|].
+    destruct l as [|a r]; [rewrite !skipn_nil; reflexivity|]. cbn [skipn Nat.add]. apply IH.
+  Qed.
+
+  Lemma NoDup_slot_unique (ls : list lscan) e e' :
+    NoDup (map l_slot ls) -> In e ls -> In e' ls -> l_slot e = l_slot e' -> e = e'.
+  Proof.
+    induction ls as [|x r IH]; intros Hnd He He' Hs; [contradiction|].
+    cbn [map] in Hnd. inversion Hnd; subst. destruct He as [->|He], He' as [->|He']; auto.
+    - exfalso. apply H1. rewrite Hs. apply in_map. exact He'.
+    - exfalso. apply H1. rewrite <- Hs. apply in_map. exact He.
+  Qed.
+
+  Lemma lazy_next (st : state) ls self k :
+    linv st ls ->
+    fst (fst (run_call_lazy K st ls (KNext self k))) = fst (run_call K st (KNext self k)) /\
+    snd (fst (run_call_lazy K st ls (KNext self k))) = snd (run_call K st (KNext self k)) /\
+    linv (snd (run_call K st (KNext self k))) (snd (run_call_lazy K st ls (KNext self k))).
+  Proof.
+    intros [Hnd Hall]. unfold run_call_lazy. rewrite carry_next.
+    destruct (run_call K st (KNext self k)) as [stp st'] eqn:Er.
+    rewrite Forall_forall in Hall.
+    destruct (lfind SM SQ ls self) as [e|] eqn:Ef.
+    - destruct (lfind_some _ _ _ Ef) as [Hin Hs]. destruct (Hall e Hin) as [all [Hscan [Hslot Hlive]]].
+      rewrite Hscan. cbn [run_call] in Er. rewrite Hs in Hslot. rewrite Hslot in Er.
+      destruct (glue_next CM WM SM SQ SC (skipn (l_taken e) all) k) as [r rest] eqn:Eg.
+      inversion Er; subst stp st'; clear Er. cbn [fst snd]. split; [reflexivity|]. split; [reflexivity|].
+      pose proof (glue_next_rest _ _ _ _ Eg) as Hrest. rewrite skipn_skipn in Hrest.
+      split.
+      + rewrite map_map. erewrite map_ext; [exact Hnd|]. intros x. destruct (Nat.eqb _ _); reflexivity.
+      + apply Forall_forall. intros x Hx. apply in_map_iff in Hx. destruct Hx as [y [Hy Hyin]].
+        destruct (Nat.eqb (l_slot y) self) eqn:Eys.
+        * apply Nat.eqb_eq in Eys. assert (y = e) by (eapply NoDup_slot_unique; eauto; congruence). subst y x.
+          exists all. unfold scanner_ok, set_taken. cbn [l_s l_q l_t l_b l_slot l_taken l_live]. rewrite Hs. repeat split.
+          -- exact Hscan.
+          -- rewrite lookup_bind_eq. f_equal. f_equal. exact Hrest.
+          -- intros n Hn. destruct (Hlive n Hn) as [a Ha]. exists a.
+             assert (self <> n) by (intros ->; congruence).
+             rewrite lookup_bind_ne, lookup_unbind_ne by assumption. exact Ha.
+        * subst x. apply Nat.eqb_neq in Eys. destruct (Hall y Hyin) as [all' [Hscan' [Hslot' Hlive']]].
+          exists all'. repeat split; auto.
+          -- rewrite lookup_bind_ne, lookup_unbind_ne by congruence. exact Hslot'.
+          -- intros n Hn. destruct (Hlive' n Hn) as [a Ha]. exists a.
+             assert (self <> n) by (intros ->; congruence).
+             rewrite lookup_bind_ne, lookup_unbind_ne by assumption. exact Ha.
+    - cbn [fst snd]. split; [reflexivity|]. split; [reflexivity|]. split; [exact Hnd|].
+      apply Forall_forall. intros y Hy. destruct (Hall y Hy) as [all' [Hscan' [Hslot' Hlive']]].
+      pose proof (lfind_none _ _ Ef y Hy) as Hne.
+      assert (Hst' : st' = snd (run_call K st (KNext self k))) by (rewrite Er; reflexivity).
+      exists all'. repeat split; auto.
+      + rewrite Hst', frame; [exact Hslot' | discriminate | exact I |]. cbn [stays]. intros E; congruence.
+      + intros n Hn. destruct (Hlive' n Hn) as [a Ha]. exists a.
+        rewrite Hst', frame; [exact Ha | discriminate | exact I |]. cbn [stays]. intros E h0. rewrite Ha. discriminate.
+  Qed.
+
+  (* ---------------------------------------------------------------- histories *)
+
+  Theorem lazy_step (st : state) ls c :
+    linv st ls ->
+    fst (fst (run_call_lazy K st ls c)) = fst (run_call K st c) /\
+    snd (fst (run_call_lazy K st ls c)) = snd (run_call K st c) /\
+    linv (snd (run_call K st c)) (snd (run_call_lazy K st ls c)).
+  Proof.
+    intros Hinv. destruct (is_next c) eqn:En.
+    - destruct c; try discriminate. apply lazy_next. exact Hinv.
+    - rewrite (lazy_other st ls c En). cbn [fst snd]. split; [reflexivity|]. split; [reflexivity|].
+      apply linv_other; assumption.
+  Qed.
+
+  Theorem lazy_history cs : forall (st : state) ls,
+    linv st ls -> run_history_lazy K st ls cs = run_history K st cs.
+  Proof.
+    induction cs as [|c r IH]; intros st ls Hinv; [reflexivity|].
+    cbn [run_history_lazy run_history]. destruct (lazy_step st ls c Hinv) as [H1 [H2 H3]].
+    destruct (run_call_lazy K st ls c) as [[o st1] ls1]. destruct (run_call K st c) as [o' st1'].
+    cbn [fst snd] in *. subst o' st1'. f_equal. apply IH. exact H3.
   Qed.
 
 End LazyProofs.
